@@ -197,6 +197,24 @@ class CFG:
                     stack.append(m)
         return seen
 
+    def reachable_under(self, start, facts, atom_of, removed=()):
+        """Forward reachability that does not follow branch edges refuted by the assumed facts."""
+        seen = set()
+        stack = [start] if start not in removed else []
+        while stack:
+            n = stack.pop()
+            if n in seen:
+                continue
+            seen.add(n)
+            for (m, c) in self.succ[n]:
+                if m in seen or m in removed:
+                    continue
+                if c is not None and not isinstance(c[0], str):
+                    if not refine(dict(facts), c[0], c[1], atom_of):
+                        continue
+                stack.append(m)
+        return seen
+
     def dominators(self):
         alln = set(self.reachable(self.entry))
         dom = {n: set(alln) for n in alln}
